@@ -106,6 +106,28 @@ class Typer:
             return self.const()
         return self.const()
 
+    def bind_target(self, target: ast.AST, it: ast.AST):
+        """for <target> in <it>: an element of an array has the array's type; enumerate / zip / range give (count,
+        element), (element, element, ..), count"""
+        fn = dotted(it.func) if isinstance(it, ast.Call) else None
+        if isinstance(target, ast.Name):
+            if fn in ("range", "enumerate", "zip") or isinstance(it, ast.Call) and fn in ("len",):
+                self.env[target.id] = self.const()
+            else:
+                self.env[target.id] = self.ty(it)
+            return
+        if isinstance(target, (ast.Tuple, ast.List)):
+            if fn == "enumerate" and it.args and len(target.elts) == 2:
+                self.bind_target(target.elts[0], ast.Call(func=ast.Name(id="range", ctx=ast.Load()), args=[], keywords=[]))
+                self.bind_target(target.elts[1], it.args[0])
+                return
+            if fn == "zip" and len(it.args) == len(target.elts):
+                for t_, a_ in zip(target.elts, it.args):
+                    self.bind_target(t_, a_)
+                return
+            for t_ in target.elts:
+                self.bind_target(t_, it)
+
     def mul(self, a: Ty, b: Ty, n) -> Ty:
         deg = (a.deg or 0) + (b.deg or 0)
         if a.shift is not None and b.shift is not None:
@@ -160,6 +182,8 @@ class Typer:
                 fake = ast.BinOp(left=st.target, op=st.op, right=st.value, lineno=st.lineno)
                 self.env[st.target.id] = self.ty(ast.copy_location(fake, st))
             elif isinstance(st, (ast.For, ast.While)):
+                if isinstance(st, ast.For):
+                    self.bind_target(st.target, st.iter)
                 self.run(st.body)
             elif isinstance(st, ast.If):
                 self.run(st.body)
@@ -262,13 +286,21 @@ def pairing_blocking(ctx, fi):
                 if src.op != "getitem":
                     continue
                 be_name = a
-                same_slice = src.args[1] is sl_w
+                # the two accumulations may sit in one loop over the blocks or in two loops over the same range: the
+                # block index of each is its own loop's counter, compared up to that renaming
+                j_e = e.data[1][0]
+                J = sym("§block")
+                from ..symex import substitute as _subst
+                two_loops = j_e is not j_w and j_e.op == "iter" and j_w.op == "iter" and j_e.args[0] is j_w.args[0]
+                cw = (lambda t: _subst(t, {j_w: J})) if two_loops else (lambda t: t)
+                ce = (lambda t: _subst(t, {j_e: J})) if two_loops else (lambda t: t)
+                same_slice = ce(src.args[1]) is cw(sl_w)
                 we = strip_wrappers(src.args[0])
                 mw = m_arrcall(we, "multiply") or (list(m_binop(we, "*")) if m_binop(we, "*") else None)
                 is_we = mw is not None and {strip_wrappers(mw[0]).uid, strip_wrappers(mw[1]).uid} == {w_cut.uid, e_cut.uid}
-                same_j = e.data[1][0] is j_w
+                same_j = j_e is j_w or two_loops
                 den_is_bw = strip_wrappers(den) is strip_wrappers(getitem(bw_ev.data[5], j_w)) or \
-                    strip_wrappers(den) is strip_wrappers(bw_ev.data[2])
+                    ce(strip_wrappers(den)) is cw(strip_wrappers(bw_ev.data[2]))
                 ok_blocks = same_slice and is_we and same_j and den_is_bw
                 why = (f"same slice {same_slice}, numerator sums weights*samples {is_we}, same block index {same_j}, "
                        f"divided by that block's weight {den_is_bw}")
@@ -614,12 +646,28 @@ def outliers(ctx):
            f"averages pair filtered weights with arrays masked by the same call: {pair_ok}", drv)
     # which column: the observable column (2) exactly when an observable is sampled (ad_mode set and not '2rdm'), the
     # energy column (1) otherwise -- written as two calls under an if / else or as one call with a selected column
-    main = [c_ for c_ in calls if not any(True for _ in outer_results(call_parts(c_)[1][0]))] if calls else []
+    ro_fi = p.func("stat_utils.reject_outliers")
+
+    def ro_args(c_):
+        """arguments of a reject_outliers call in the order of its parameters (keywords bound to their positions)"""
+        from ..model import bind_call
+        _, pos_, kws_ = call_parts(c_)
+        okb_, _, mp_ = bind_call(ro_fi, len(pos_), list(kws_), False)
+        if not okb_:
+            return list(pos_)
+        out_ = []
+        for prm_ in ro_fi.pos_params():
+            m_ = mp_.get(prm_.name)
+            if m_ is None:
+                break
+            out_.append(pos_[m_[1]] if m_[0] == "pos" else kws_[m_[1]])
+        return out_
+    main = [c_ for c_ in calls if ro_args(c_) and not any(True for _ in outer_results(ro_args(c_)[0]))] if calls else []
     sel = None      # (condition rendering, column when true, column when false)
     if len(main) == 2:
         info = []
         for c_ in sorted(main, key=lambda t: dev.line_of.get(t.uid, 0)):
-            _, pos, _ = call_parts(c_)
+            pos = ro_args(c_)
             col = pos[1].args[0] if len(pos) > 1 and pos[1].op == "const" else None
             cnd = None
             for e in dev.events:
@@ -631,7 +679,7 @@ def outliers(ctx):
             f_col = info[1][0] if info[0][1][1] else info[0][0]
             sel = (show(info[0][1][0], maxdepth=4), t_col, f_col)
     elif len(main) == 1:
-        _, pos, _ = call_parts(main[0])
+        pos = ro_args(main[0])
         col = strip_wrappers(pos[1]) if len(pos) > 1 else None
         if col is not None and col.op in ("phi", "ifexp") and col.args[1].op == "const" and col.args[2].op == "const":
             cnd_, a_, b_ = col.args[0], col.args[1].args[0], col.args[2].args[0]
